@@ -56,9 +56,10 @@ def consts(mode, qflags, gflags=None, **kw):
 
 
 # ---- corpora over the keys the universe filters talk about ----------------------------------------------
-_VA = [Q.ABS, 0, 1, 1.0, 2.5, True, False, None, "1", "ab", [1, 2], [1.0, 2], {"x": 1}, -1, -1.0]
-_VNX = [Q.ABS, 0, 1, 2.5, True, "ab", None]
-_VDX = [Q.ABS, 0, 1, 1.0, True, "1", "ab", [1, 2], None]
+_VA = [Q.ABS, 0, 1, 1.0, 2.5, True, False, None, "1", "ab", [1, 2], [1.0, 2], {"x": 1}, -1, -1.0,
+       10, 1000, 7, 5.0, 0.5, -0.5, 0.25, -2, 1.5, 0.5, 10]       # the numbers with non-canonical token spellings (Spelling.tla NumberAtoms)
+_VNX = [Q.ABS, 0, 1, 2.5, True, "ab", None, 10, 7]
+_VDX = [Q.ABS, 0, 1, 1.0, True, "1", "ab", [1, 2], None, 10, 12.5]
 
 
 def universe_corpus(rnd, n):
@@ -156,7 +157,7 @@ def _tok_shape(sp):
         else:
             s = Q.uncps(t["cp"])
             parts.append("/re/" if s.startswith("/") else "!" if s == "!" else "raw")
-    return sp["form"] + "(" + " ".join(parts) + ")"
+    return sp["form"] + "(" + " ".join(parts) + ")" + (":" + sp["alt"] if sp.get("alt") else "")
 
 
 def _parse_diff_kind(sp, want, got):
@@ -180,8 +181,15 @@ def _parse_diff_kind(sp, want, got):
                 return sp["form"] + ":!"
             if txt.startswith("/"):
                 return sp["form"] + ":/re/-token"
-            body = txt.lstrip("+-")
-            cls = "int-literal" if body.isdigit() else "float-literal" if body.replace(".", "", 1).isdigit() else "word"
+            import re
+            if sp.get("alt"):
+                cls = "noncanonical-number-literal"
+            elif re.fullmatch(r"-?\d+", txt):
+                cls = "int-literal"
+            elif re.fullmatch(r"-?\d+\.\d+", txt):
+                cls = "float-literal"
+            else:
+                cls = "word"
             return sp["form"] + ":raw-" + cls
     return sp["form"] + ":extra-entries"
 
@@ -234,6 +242,18 @@ def _spell_worker(item):
                     if got != base:
                         res["bad"].append((li, si, base, got, "main"))
                     break
+        # every non-canonical number token spelling through the real entry point on the first corpora
+        if idx < _G["alt_main_corpora"]:
+            for si, sp in enumerate(line["spellings"]):
+                if sp["form"] == "cli" and sp.get("alt"):
+                    toks = Q.render_tokens(sp["toks"])
+                    if any(t.startswith("-") for t in toks):      # argparse would read it as an option
+                        continue
+                    out = cli_main_find(root, toks)
+                    res["main"] += 1
+                    got = out if isinstance(out, str) else sb.mask(out)
+                    if got != base:
+                        res["bad"].append((li, si, base, got, "main"))
         # cursor observations on one non-canonical spelling
         if (li + 3 * idx) % _G["cursor_every"] == 0:
             pys = [sp for sp in line["spellings"] if sp["form"] == "py"]
@@ -497,7 +517,7 @@ def run(ctx):
     # ---- 1. spellings ------------------------------------------------------------------------------------------
     sout = os.path.join(ctx.work, "spell.ndjson")
     cfgt = tlc.cfg(consts("spell", qflags, NSPELL=120 if quick else 1500), init="SpellInit", next="SpellNext",
-                   invariants=["AllSpellingsDenote", "CanonicalIsConcrete", "CastRoundTrip", "CastOrder"], postcondition="SpellExport")
+                   invariants=["AllSpellingsDenote", "CanonicalIsConcrete", "CastRoundTrip", "CastAltTokens", "CastGrammar", "CastOrder"], postcondition="SpellExport")
     r = tlc.run("query/Spelling.tla", cfg_text=cfgt, workdir=ctx.work, workers=workers, seed=ctx.seed % 10**6, env={"SPELL_OUT": sout}, coverage=False, allow_violation=False, heap="8g")
     ctx.add_tlc("Spelling.tla: every initial state one filter; all spellings parse back to it (AllSpellingsDenote), Cast/Token round trip", r)
     lines = [json.loads(l) for l in open(sout)]
@@ -505,7 +525,10 @@ def run(ctx):
     if len(lines) != r.distinct or nsp < 10 * len(lines):
         raise core.MachineryError("spelling export: %d filters / %d spellings for %d TLC states" % (len(lines), nsp, r.distinct))
     forms = collections.Counter(sp["form"] for l in lines for sp in l["spellings"])
-    ctx.cov["spellings"] = {"filters": len(lines), "spellings": nsp, "by_form": dict(forms)}
+    alts = collections.Counter(sp["alt"] for l in lines for sp in l["spellings"] if sp["alt"])
+    ctx.cov["spellings"] = {"filters": len(lines), "spellings": nsp, "by_form": dict(forms), "noncanonical_number_tokens": dict(alts)}
+    if len(alts) < 8:
+        raise core.MachineryError("vacuous: non-canonical number token kinds generated: %r" % dict(alts))
 
     # 1a. the token parser, type-exact, once per token spelling (independent of any corpus)
     parse_bad = {}
@@ -533,7 +556,7 @@ def run(ctx):
 
     # 1b. every spelling on real projects
     ncorp = 6 if quick else 40
-    _G.update(base=ctx.mkdtemp("spell"), spell_lines=lines, main_every=40 if quick else 25, cursor_every=5 if quick else 4)
+    _G.update(base=ctx.mkdtemp("spell"), spell_lines=lines, main_every=40 if quick else 25, cursor_every=5 if quick else 4, alt_main_corpora=1 if quick else 3)
     items = [(i, rnd.randrange(2**40), rnd.choice([3, 4, 5, 6])) for i in range(ncorp)]
     results = core.pmap(_spell_worker, items, procs=procs, chunks=1)
     cursor_recs = []
@@ -546,7 +569,7 @@ def run(ctx):
         cursor_recs += res["cursor"]
         for li, si, base, got, how in res["bad"]:
             sp, f = lines[li]["spellings"][si], lines[li]["filter"]
-            key = (how, sp["form"], tuple(sorted(Q.ops_of(f))))
+            key = (how, sp["form"] + (":noncanonical-number-token" if sp.get("alt") else ""), tuple(sorted(Q.ops_of(f))))
             size = (Q.fsize(f), len(json.dumps(sp)))
             if key not in by_key or size < by_key[key][0]:
                 by_key[key] = (size, res["jobs"], sp, f, base, got)
